@@ -111,6 +111,13 @@ def _appendout(e):
     return None
 
 
+def _dropname(e):
+    if e.get('op') == 'names' and e.get('set') == 'ok' and e.get('lexok') and len(e.get('names', [])) >= 1:
+        e['names'] = e['names'][1:]
+        return e
+    return None
+
+
 PROPS = {
     'C11': dict(
         tv=dict(module='ScannerTrace', cfg='ScannerTrace.cfg'),
@@ -179,6 +186,15 @@ PROPS = {
         tv=dict(module='MustacheTrace', cfg='MustacheTrace.C10.cfg'),
         mc=[],
         corrupt=[('append a character to the rendering', _appendout)],
+        exhaustive_part=True,
+        harness_prefix='HARNESS:',
+    ),
+    'C18': dict(
+        tv=[dict(part='expr', module='ExprNamesTrace', cfg='ExprNamesTrace.cfg'),
+            dict(part='coll', module='CollectionsTrace', cfg='CollectionsTrace.cfg'),
+            dict(part='tmpl', module='MustacheTrace', cfg='MustacheTrace.C18.cfg')],
+        mc=[dict(module='CollectionsMC', cfg='CollectionsMC.cfg')],
+        corrupt=[('drop a reported name', _dropname)],
         exhaustive_part=True,
         harness_prefix='HARNESS:',
     ),
@@ -307,5 +323,17 @@ DOC = {
              'in the specification). Left open: leading/trailing whitespace of the template (trimmed by the engine, avoided by the '
              'generator), case-insensitively colliding keys, closing by a name differing only in case, quoted strings inside tags.',
         technique='TLA+ reference semantics (Mustache.MParse/Render) + TLC trace validation of generated templates x variable maps and exhaustive lexeme strings',
+    ),
+    'C18': dict(
+        level='Three trace specifications over one registry entry. ExprNamesTrace.tla (with ExprEval\'s trees): reported names = identifiers in '
+              'variable position, folded, no exact duplicates, spelled as in the text, in order of first occurrence; automatic variables keep '
+              'existing entries/values and add exactly one entry per new folded name; an unresolved variable or function yields an error '
+              'naming it. Collections.tla is the ordered-list model (first added wins, case-insensitive), model-checked over all operation '
+              'sequences up to the bound (CollectionsMC) and bound to the real VariableCollection / FunctionCollection by validating every '
+              'operation of exhaustive short and random long sequences with the full list logged after each step. MustacheTrace (Check=C18) '
+              'checks the names and automatic variables of generated templates against Mustache.NameKeys (never if/unless).',
+        note='Trusted: TLC, Json module, recorder (object identity via pointers), folding of names done by the recorder with strings.ToLower. '
+             'Remove/Get with an invalid index is API misuse and not driven.',
+        technique='TLA+ list model + TLC model checking (CollectionsMC) + TLC trace validation of collections, expression names and template names',
     ),
 }
